@@ -207,6 +207,14 @@ func c20Dropped(c *Ctx, p *Prog) {
 					}
 				}
 			}
+			// `defer tx.Rollback()`: database/sql makes Rollback a no-op (ErrTxDone) once the transaction was committed, so
+			// the deferred call only ever rolls back on a path that already fails
+			if _, isDefer := in.(*ssa.Defer); isDefer && name == "(*database/sql.Tx).Rollback" {
+				nAllowed++
+				c.Allow(R, name+" in "+fnName(fn), "deferred rollback: a no-op after Commit, otherwise the path already fails")
+				c.OK(R, k, p.pos(in.Pos()), "clean-up call: defer tx.Rollback()")
+				return
+			}
 			// rolling a transaction back in a deferred closure that first tests that the transaction is still open: the
 			// path already fails (or the transaction was committed and the variable cleared), wherever that code lives
 			if name == "(*database/sql.Tx).Rollback" && fn.Parent() != nil {
@@ -1267,6 +1275,9 @@ func c20NewUpload(c *Ctx, p *Prog) {
 						okRb = true
 					}
 				})
+			}
+			if objIs(calleeObj(&d.Call), "database/sql", "Tx", "Rollback") {
+				okRb = true
 			}
 		}
 	})
